@@ -21,7 +21,25 @@ def sib_bytes(kind, key):
         return ksi.fake_imprint(1, "s%s" % (key,))
     if kind == "legacy":
         return ksi.legacy_id(("id%s" % (key,)).encode()[:20])
-    return ksi.metadata_payload(("c%s" % (key,)).encode(), padding="auto")
+    return meta_form(("c%s" % (key,)).encode())
+
+
+# the serialized form of a metadata sibling: besides the short client id, forms whose fields sit on either side of the short/long TLV header
+# boundary (value of 254 / 255 / 256 octets incl. the terminating NUL), with machine id, sequence number and request time present or not
+META_LADDER = [dict(cl=n) for n in (252, 253, 254, 255, 256)] + [dict(cl=4, ma=n) for n in (253, 254, 255)] + [dict(cl=254, ma=254, seq=7), dict(cl=3, seq=255, rt=1500000000123456), dict(cl=3, ma=2, seq=65536, rt=1)]
+META_MODE = {"n": 0}
+
+
+def meta_form(tag):
+    import hashlib
+    h = int.from_bytes(hashlib.sha256(tag).digest()[:4], "big")
+    META_MODE["n"] += 1
+    if h % 3:                       # two thirds of the metadata siblings are the plain short form
+        return ksi.metadata_payload(tag, padding="auto")
+    f = META_LADDER[(h >> 3) % len(META_LADDER)]
+    cl = (tag + b"-" * 300)[:f["cl"] - 1]
+    ma = (b"m" + tag + b"." * 300)[:f["ma"] - 1] if "ma" in f else None
+    return ksi.metadata_payload(cl, machine=ma, seq=f.get("seq"), reqtime=f.get("rt"), padding="auto")
 
 
 def mk_links(links, c=None):
@@ -53,7 +71,8 @@ def unsupported_alg(exe):
     return None
 
 
-def run_cases(chk, exe, cases):
+def run_cases(chk, exe, cases, readmeta=False):
+    """readmeta: the driver reads every metadata field through the getters (and the chain's identity) before it aggregates"""
     lines, exps = [], []
     UNSUP = unsupported_alg(exe)
     if UNSUP is None:        # every defined algorithm is computable here: the `unevaluable` branch of the model cannot be realised
@@ -105,7 +124,7 @@ def run_cases(chk, exe, cases):
             for b in x["bits"]:
                 val = (val << 1) | b
             exps.append(("S", [x["ok"], "%x" % val if x["ok"] else None]))
-    outs, crashes = vlib.run_lines(exe, lines)
+    outs, crashes = vlib.run_lines(exe, lines, env={"VERIF_READMETA": "1"} if readmeta else None)
     for idx, rc, err in crashes:
         import re
         m = re.search(r"SUMMARY: (\w+): (\S+) \S*?([\w.]+:\d+)", err)
@@ -144,7 +163,7 @@ def run_cases(chk, exe, cases):
         elif kind == "S":
             got = [rc_ok(f[1]), f[2] if rc_ok(f[1]) else None]
         if got != exp:
-            key = classify(d["c"], exp, got)
+            key = classify(d["c"], exp, got) + (":after-reading-metadata" if readmeta else "")
             if kind == "T":
                 bad = [(v, e, g) for v, (e, g) in enumerate(zip(exp, got)) if e != g][:5]
                 desc = "calendar time for pub=%d, shapes of length %d: (shape number, spec, libksi) = %s" % (d["c"]["pub"], d["c"]["n"], bad)
@@ -254,6 +273,9 @@ def run(chk, tier, seed):
         if not cases:
             raise vlib.CheckError("no cases exported")
         nontriv += run_cases(chk, exe, cases)
+        # reading is not an action of HashChain.tla: the same table again for the cases with metadata siblings, every field read before aggregating
+        withmeta = [d for d in cases if d["c"]["t"] in ("agg", "obj", "list") and "meta" in json.dumps(d["c"])]
+        nontriv += run_cases(chk, exe, withmeta, readmeta=True)
         total += len(cases)
         kinds = {}
         for d in cases:
